@@ -213,7 +213,9 @@ def run(ctx):
     import drain_rules as DR
     sz = shared.size_init(facts, ER)
     ctx.require(sz is not None, "C13.2: remaining-size field of the length-limited reader")
-    DR.owed_rules(ctx, "C13.2", ER, sz, rules={"bounded": ["C13.2"], "complete": []})
+    # ... and must take all of it however it arrives: a drain that gives up after a number of reads, or on a short read, ends in the
+    # middle of the body when the client's bytes come in small pieces
+    DR.owed_rules(ctx, "C13.2", ER, sz, rules={"bounded": ["C13.2"], "complete": ["C13.2"]})
 
     # ---- C13.3 loop-carried parser state in the line reader
     line_reader_rules(ctx, facts, "C13.3")
